@@ -887,8 +887,13 @@ class Interp:
             if len(segs) == 1 and len(cands) == 1:
                 return EnumV(cands[0], name, enums[cands[0]].index(name), fields)
             if len(cands) > 1 and len(segs) == 1:
-                # prefer local-type hint
-                raise Unsupported("ambiguous bare variant " + name)
+                # several enums have a variant of this name: the type of the assigned place decides
+                dfr, dplace = getattr(self, '_dest', (None, None))
+                ty = self._place_ty(dfr, dplace) if dfr is not None else None
+                bt = base_type(ty) if ty else None
+                if bt in cands:
+                    return EnumV(bt, name, enums[bt].index(name), fields)
+                raise Unsupported("ambiguous bare variant %s (destination type %s)" % (name, ty))
             # tuple struct / unit struct
             return StructV(name, fields)
         raise Unsupported("aggregate " + kind)
@@ -917,6 +922,8 @@ class Interp:
                 block = blocks[bb]
                 for st in block.stmts:
                     if st.kind == 'assign':
+                        if st.rv.kind == 'aggregate':
+                            self._dest = (fr, st.place)
                         v = self.rvalue(fr, st.rv)
                         if st.place.proj:
                             self.store(self.place_addr(fr, st.place), v)
